@@ -149,12 +149,29 @@ def rule_f(F):
                 own_fail.add(bi)
     rets = set(cfg.return_blocks())
     r = cfg.reachable_from(pt["target"], avoid=set(pops) | own_fail)
+    key = "C17/F/run/entry-frame-balanced"
     if r & rets:
-        res.append(bad("C17.F", "C17/F/run/entry-frame-balanced", run.loc(pt.get("ln")),
+        res.append(bad("C17.F", key, run.loc(pt.get("ln")),
                        "Vm::run pushes an entry call frame and returns without removing it (the program ends with Exit, which does not pop): "
                        "each run on the same VM leaks one frame and the 257th run fails with CallStackOverflow"))
-    else:
-        res.append(ok("C17.F", "C17/F/run/entry-frame-balanced", run.loc(pt.get("ln")), "the entry frame is removed on every path to return"))
+        return res
+    # a single pop only balances the entry frame; the interpreter loop returns from inside called functions on every error, on
+    # Timeout and on Exit/Abort, with the frames of the active calls still on the stack. Unless the loop cannot push frames,
+    # the cleanup has to empty the stack.
+    clears = [bi for bi, t in mu.calls(run)
+              if any(n in ("collections::bounded_stack::BoundedStack::clear", "vm::runtime::RuntimeData::clear", "vm::Vm::clear")
+                     for n in callee_names(t["func"]))]
+    r2 = cfg.reachable_from(pt["target"], avoid=set(clears) | own_fail)
+    if r2 & rets:
+        inner = [n for n in ("vm::instr_execution::push_call_frame",) if n in reach_fns(F, "vm::Vm::_run")]
+        if inner:
+            res.append(bad("C17.F", key, run.loc(pt.get("ln")),
+                           "Vm::run removes only one frame (pop) after the interpreter loop, but the loop can return with the frames of "
+                           "active calls still on the call stack (%s is reachable from _run; every error, Timeout and Exit inside a "
+                           "function returns without unwinding): the leftovers accumulate over runs on one VM until an otherwise fine "
+                           "program fails with CallStackOverflow" % inner[0]))
+            return res
+    res.append(ok("C17.F", key, run.loc(pt.get("ln")), "the call stack is emptied on every path to return"))
     return res
 
 
